@@ -108,7 +108,7 @@ def step (W : Nat → Option Nat) (st : DState) (line : String) : DState × Stri
     -- `write_all`: the provided method of `io::Write` loops over `write`, which takes everything at once
     match st.parser, unhex h with
     | some p, some bs =>
-      match p.process W st.cb bs with
+      match p.writeAll W st.cb bs with
       | .ok p' => ({ st with parser := some p' }, s!"ok {bs.length}")
       | .error (.at n) => (st, s!"PANIC {n}")
     | _, _ => (st, "BADOP")
@@ -120,7 +120,7 @@ def step (W : Nat → Option Nat) (st : DState) (line : String) : DState × Stri
       let cs := ((cuts.splitOn ",").filterMap String.toNat?).filter (· ≤ bs.length)
       let bounds := (0 :: cs ++ [bs.length]).mergeSort
       let pieces := (bounds.zip bounds.tail).map (fun (a, b) => (bs.drop a).take (b - a))
-      match pieces.foldlM (fun p piece => if piece.isEmpty then pure p else p.process W st.cb piece) p with
+      match p.writeVectoredAll W st.cb pieces with
       | .ok p' => ({ st with parser := some p' }, s!"ok {bs.length}")
       | .error (.at n) => (st, s!"PANIC {n}")
     | _, _ => (st, "BADOP")
@@ -140,6 +140,12 @@ def step (W : Nat → Option Nat) (st : DState) (line : String) : DState × Stri
       | .ok s => ({ st with parser := some { p with ws := { p.ws with screen := s } } }, "ok")
       | .error (.at n) => (st, s!"PANIC {n}")
     | _, _ => (st, "BADOP")
+  | ["U", k] =>
+    -- `*parser.screen_mut() = snapshot.clone()`
+    match st.parser, k.toNat?.bind (slot st) with
+    | some p, some s => ({ st with parser := some { p with ws := { p.ws with screen := s } } }, "ok")
+    | none, _ => (st, "NOPARSER")
+    | _, none => (st, "NOSLOT")
   | ["S", k] =>
     match st.parser, k.toNat? with
     | some p, some k => ({ st with slots := st.slots.setIfInBounds k (some p.screen) }, "ok")
